@@ -186,6 +186,31 @@ def coq_pairs(xs):
     return "[" + "; ".join('("%s", "%s")' % (a, b.replace('"', "'")) for a, b in xs) + "]"
 
 
+def columns_by_execution(src, fn):
+    """The column list does not depend on the data: when the literal is not written inside the function (module
+    constants, helper functions), the helper is executed on an empty record list with the recording pandas stand-in
+    and the columns of the frame it builds are read off."""
+    import types
+    stub = os.path.join(os.path.dirname(os.path.dirname(os.path.abspath(__file__))), "pyharness", "pandas_stub")
+    saved = sys.modules.get("pandas")
+    sys.path.insert(0, stub)
+    try:
+        sys.modules.pop("pandas", None)
+        mod = types.ModuleType("bourse_data_processing_under_translation")
+        exec(compile(src, "data_processing.py", "exec"), mod.__dict__)
+        df = getattr(mod, fn)([])
+        cols = [str(c) for c in df.columns]
+        return cols if cols else ["?"]
+    except Exception as e:  # noqa
+        fails.append("columns of %s: %r" % (fn, e))
+        return ["?"]
+    finally:
+        sys.path.remove(stub)
+        sys.modules.pop("pandas", None)
+        if saved is not None:
+            sys.modules["pandas"] = saved
+
+
 def main():
     out = ["(* generated by translators/layout.py - do not edit *)",
            "From Coq Require Import String List. Import ListNotations. Open Scope string_scope.", ""]
@@ -231,8 +256,8 @@ def main():
             out.append("Definition tuple_%s : list string := %s." % (tag, coq_list(fs)))
         dp = read("src/bourse/data_processing.py")
         for tag, fn in (("trades", "trades_to_dataframe"), ("orders", "orders_to_dataframe")):
-            m = re.search(r"def %s.*?columns = \[(.*?)\]" % fn, dp, re.S)
-            cols = re.findall(r'"([^"]*)"', m.group(1)) if m else ["?"]
+            m = re.search(r"def %s\b(?:(?!\ndef ).)*?columns = \[(.*?)\]" % fn, dp, re.S)
+            cols = re.findall(r'"([^"]*)"', m.group(1)) if m else columns_by_execution(dp, fn)
             d = re.search(r"def %s.*?Pandas dataframe with columns:(.*?)Notes" % fn, dp, re.S)
             doc_cols = re.findall(r"- ``(\w+)``", d.group(1)) if d else ["?"]
             out.append("Definition columns_%s : list string := %s." % (tag, coq_list(cols)))
